@@ -176,8 +176,6 @@ def content(x, ctype):
         c["interior_ring"] = jdata(x.get_interior_ring())
     if hasattr(x, "get_measure"):
         c["measure"] = x.get_measure(None)
-    if ctype == "cell_measure":
-        c["external"] = bool(x.nc_get_external())
     return c
 
 
